@@ -80,6 +80,7 @@ type Interp struct {
 	curPos    token.Pos
 	onceDone  map[*Value]bool
 	ownInit   bool
+	permCache map[string][]int
 	objIDs    map[interface{}]uint64
 	stubs     map[string]bool
 }
@@ -97,7 +98,7 @@ var infoCache sync.Map // *ssa.Function -> *fnInfo (immutable once built)
 func newInterp(conf *Config, ex *Explorer) *Interp {
 	in := &Interp{conf: conf, prog: conf.prog, globals: map[*ssa.Global]*Value{}, infos: map[*ssa.Function]*fnInfo{},
 		rtErrStr: conf.rtErr, ex: ex, mainPkg: conf.mainPkg, maxSteps: conf.maxSteps, initPkgs: conf.initPkgs,
-		nInputs: map[string]int{}, stubs: map[string]bool{}, funcs: map[string]bool{}, mapSites: map[string]int{}, mapOrder: conf.mapOrder,
+		nInputs: map[string]int{}, stubs: map[string]bool{}, funcs: map[string]bool{}, mapSites: map[string]int{},
 		trace: conf.traceCalls}
 	in.sched = newSched(in)
 	return in
@@ -898,7 +899,7 @@ func (in *Interp) rangeIter(x Value, t types.Type, instr *ssa.Range) iter {
 					in.mapSites[site] = len(it.keys)
 				}
 				if in.mapOrderMatches(site, instr) {
-					it.keys = in.permute(it.keys)
+					it.keys = in.permute(it.keys, site)
 				}
 			}
 		} else {
@@ -911,16 +912,43 @@ func (in *Interp) rangeIter(x Value, t types.Type, instr *ssa.Range) iter {
 	panic(fmt.Sprintf("rangeIter on %T", x))
 }
 
-// permute picks an arbitrary order through nondeterministic choices.
-func (in *Interp) permute(keys []int) []int {
-	rest := append([]int{}, keys...)
-	var out []int
-	for len(rest) > 1 {
-		c := in.ex.Choose(len(rest), "map-order")
-		out = append(out, rest[c])
-		rest = append(rest[:c], rest[c+1:]...)
+// permute picks an arbitrary order through nondeterministic choices: every permutation for up to
+// 5 keys; for larger maps every rotation of the insertion order (a rotation reverses the
+// relative order of any chosen pair and makes any key the first or the last one). All executions
+// of one range site with the same number of keys on one path use the same positional
+// permutation (Go would re-randomise each time; this is a stated bound that keeps the number of
+// orders per site at n! resp. n).
+func (in *Interp) permute(keys []int, site string) []int {
+	n := len(keys)
+	ck := site + "#" + strconv.Itoa(n)
+	if in.permCache == nil {
+		in.permCache = map[string][]int{}
 	}
-	return append(out, rest[0])
+	pos, ok := in.permCache[ck]
+	if !ok {
+		idx := make([]int, n)
+		for i := range idx {
+			idx[i] = i
+		}
+		if n > 5 {
+			k := in.ex.Choose(n, "map-order")
+			pos = append(append([]int{}, idx[k:]...), idx[:k]...)
+		} else {
+			rest := idx
+			for len(rest) > 1 {
+				c := in.ex.Choose(len(rest), "map-order")
+				pos = append(pos, rest[c])
+				rest = append(append([]int{}, rest[:c]...), rest[c+1:]...)
+			}
+			pos = append(pos, rest[0])
+		}
+		in.permCache[ck] = pos
+	}
+	out := make([]int, n)
+	for i, p := range pos {
+		out[i] = keys[p]
+	}
+	return out
 }
 
 // ---- type assertions ----
